@@ -516,7 +516,8 @@ func runCLI(c *harness.Ctx, srng *rand.Rand, s, slot int) {
 		// less than a chunk of archive is outstanding when the interruption arrives
 		var ts bytes.Buffer
 		tw := tar.NewWriter(&ts)
-		big := make([]byte, 20000+srng.Intn(40000))
+		// (the chunker reads far ahead: with small members the whole archive is still unchunked when the signal comes)
+		big := make([]byte, []int{40, 300, 300, 2500, 20000 + srng.Intn(40000)}[srng.Intn(5)])
 		srng.Read(big)
 		mt := time.Unix(1500000000, 0)
 		tw.WriteHeader(&tar.Header{Typeflag: tar.TypeDir, Name: "./", Mode: 0755, ModTime: mt})
@@ -573,7 +574,7 @@ func runCLI(c *harness.Ctx, srng *rand.Rand, s, slot int) {
 		stdin.Write(stdinFirst)
 		if k > 0 {
 			// wait until the chunks of the first member are on their way, then interrupt, then deliver the rest
-			for w := 0; w < 300 && atomic.LoadInt64(&reqs) < 2; w++ {
+			for w := 0; w < 30 && atomic.LoadInt64(&reqs) < 2; w++ {
 				time.Sleep(time.Millisecond)
 			}
 			time.Sleep(time.Duration(k) * time.Millisecond)
